@@ -168,3 +168,43 @@ Proof.
     + unfold raw_of. rewrite EK. exact ER.
   - destruct Sh.
 Qed.
+
+(* ------------------------------------------------------------------ constructors *)
+Lemma hinv_alloc_obj m objs pads sid sz m1 s1 a h :
+  hinv m objs pads -> 0 <= sid < nsegs m -> 0 <= sz -> alloc m sid sz = Ok (m1, s1, a) ->
+  nsegs m1 < 4294967296 ->
+  p_valid h = true -> p_seg h = s1 -> p_off h = a -> shape_ok h -> obj_bytes h = sz ->
+  hinv m1 (objs ++ [h]) pads.
+Proof.
+  intros H Hs Hz EA Hns Hv Es Eo Sh Eb.
+  pose proof (hi_inv _ _ _ H) as Hinv. pose proof Hinv as [Hwf Har].
+  destruct (alloc_keeps _ _ _ _ _ _ Hinv Hs Hz EA) as (K & I1 & N1 & S1 & AD & L1 & _ & _ & _ & MX).
+  pose proof (alloc_small _ _ _ _ _ _ Hinv (hi_small _ _ _ H) Hs Hz EA) as Sm1.
+  pose proof (alloc_fresh _ _ _ _ _ _ Hwf Har Hs Hz EA) as AF. cbv zeta in AF.
+  destruct AF as (_ & _ & A3 & _ & _ & A6 & _).
+  pose proof (zlen_nonneg (mem m s1)) as Z0. pose proof (padToWord_nonneg sz) as P0. unfold maxSegmentSize in MX.
+  assert (Gd : good (bm_data m1) h).
+  { split; [exact Sh|]. split; [rewrite Es; lia|]. split.
+    - unfold obj_reg. cbn [r_size]. rewrite Eb, Es, Eo. unfold blen in A3.
+      apply in_seg_intro; rewrite ?zlen_bm, ?seg_len_bm; try lia.
+    - rewrite Eo. lia. }
+  apply (hinv_add_obj m objs pads m1 h); auto.
+  - right. rewrite Es, Eo. lia.
+  - intros q Hq. destruct (slot_in_obj _ _ _ Hv Gd Hq) as (S1' & S2 & S3 & _).
+    unfold obj_reg in S3. cbn [r_size] in S3. rewrite Eb, Eo in *. rewrite Es in S1'.
+    rewrite S1'. rewrite word_at_sub; try lia.
+    unfold mem at 1. rewrite A6. fold (mem m s1). rewrite sub_app_zeros; try lia.
+    now rewrite le_decode_zeros.
+Qed.
+
+Lemma list_alloc_eq h : p_valid h = true -> shape_ok h -> p_kind h = KList ->
+  obj_bytes h = if p_bit h then bitListSize (p_len h)
+                else (DataSize (p_size h) + 8 * PointerCount (p_size h)) * p_len h.
+Proof.
+  intros Hv Sh Ek. unfold obj_bytes, shape_ok in *. rewrite Ek in *. destruct Sh as (Hc & Hn & Hk).
+  destruct Hk as [[Hb Hsz]|[Hb Hsz]]; rewrite Hb.
+  - unfold list_allocSize. now rewrite Hv, Hb.
+  - destruct Hsz as [Hsz|(d & Hsz & Hd)].
+    + rewrite (list_alloc_plain h 0 1); auto; try lia. rewrite Hsz. reflexivity.
+    + rewrite (list_alloc_plain h d 0); auto; try lia. rewrite Hsz. reflexivity.
+Qed.
